@@ -3,6 +3,8 @@ a violating case matches a known finding iff it has the same key."""
 
 
 def violation_key(pid, c):
+    if c.go.startswith("CRASH "):
+        return "crash:" + c.go[6:60]
     f = globals().get("key_" + c.engine)
     if f:
         k = f(pid, c)
